@@ -1,1 +1,288 @@
+//! Controlled environments: the only sources of nondeterminism a reader/writer can see are the
+//! answers of its I/O object. Each answer is decided by a `Script`, so that a run is a pure
+//! function of (input, configuration, script) and can be replayed.
 
+use std::future::Future;
+use std::io::{self, BufRead};
+use std::pin::Pin;
+use std::task::{Context, Poll, Waker};
+use tokio::io::{AsyncBufRead, AsyncRead, AsyncWrite, ReadBuf};
+
+#[derive(Clone, Copy, PartialEq, Eq, Hash, Debug)]
+pub enum Fault {
+    Interrupted,
+    Hard(io::ErrorKind),
+    Pending,
+}
+
+/// How the source answers: where it cuts the input into pieces and which `fill_buf` calls
+/// (counted from 0, every call counts) answer with a fault instead of data.
+#[derive(Clone, PartialEq, Eq, Hash, Debug, Default)]
+pub struct Script {
+    /// sorted offsets in 1..len at which a piece ends
+    pub cuts: Vec<usize>,
+    /// uniform piece size (0 = none); combined with `cuts` (a piece ends at either)
+    pub piece: usize,
+    /// sorted by call index
+    pub faults: Vec<(usize, Fault)>,
+}
+
+impl Script {
+    pub fn whole() -> Script {
+        Script::default()
+    }
+    pub fn pieces(n: usize) -> Script {
+        Script { piece: n, ..Default::default() }
+    }
+    pub fn cuts(c: &[usize]) -> Script {
+        Script { cuts: c.to_vec(), ..Default::default() }
+    }
+    /// All cuts encoded as a bit mask over offsets 1..len (bit i-1 <=> cut at offset i).
+    pub fn from_mask(mask: u64, len: usize) -> Script {
+        Script { cuts: (1..len).filter(|i| mask & (1 << (i - 1)) != 0).collect(), ..Default::default() }
+    }
+    pub fn to_json(&self) -> serde_json::Value {
+        serde_json::json!({
+            "cuts": self.cuts,
+            "piece": self.piece,
+            "faults": self.faults.iter().map(|(i, f)| serde_json::json!([i, format!("{:?}", f)])).collect::<Vec<_>>(),
+        })
+    }
+    pub fn from_json(v: &serde_json::Value) -> Script {
+        let cuts = v["cuts"].as_array().map(|a| a.iter().map(|x| x.as_u64().unwrap() as usize).collect()).unwrap_or_default();
+        let piece = v["piece"].as_u64().unwrap_or(0) as usize;
+        let faults = v["faults"]
+            .as_array()
+            .map(|a| {
+                a.iter()
+                    .map(|p| {
+                        let i = p[0].as_u64().unwrap() as usize;
+                        let f = match p[1].as_str().unwrap() {
+                            "Interrupted" => Fault::Interrupted,
+                            "Pending" => Fault::Pending,
+                            s if s.contains("BrokenPipe") => Fault::Hard(io::ErrorKind::BrokenPipe),
+                            s if s.contains("UnexpectedEof") => Fault::Hard(io::ErrorKind::UnexpectedEof),
+                            _ => Fault::Hard(io::ErrorKind::Other),
+                        };
+                        (i, f)
+                    })
+                    .collect()
+            })
+            .unwrap_or_default();
+        Script { cuts, piece, faults }
+    }
+}
+
+/// Scripted in-memory source, usable as `BufRead` and as `AsyncBufRead`.
+pub struct Source<'a> {
+    data: &'a [u8],
+    pos: usize,
+    script: &'a Script,
+    next_cut: usize,
+    next_fault: usize,
+    /// number of fill_buf calls so far
+    pub calls: usize,
+    /// number of calls that were answered with data or EOF (not a fault)
+    pub data_calls: usize,
+    /// set when a scripted fault index was reached
+    pub faults_fired: usize,
+    /// misuse of the BufRead contract by the consumer (consume more than offered)
+    pub misuse: Option<String>,
+    last_offered: usize,
+}
+
+impl<'a> Source<'a> {
+    pub fn new(data: &'a [u8], script: &'a Script) -> Source<'a> {
+        Source {
+            data,
+            pos: 0,
+            script,
+            next_cut: 0,
+            next_fault: 0,
+            calls: 0,
+            data_calls: 0,
+            faults_fired: 0,
+            misuse: None,
+            last_offered: 0,
+        }
+    }
+    fn piece_end(&mut self) -> usize {
+        let mut end = self.data.len();
+        while self.next_cut < self.script.cuts.len() && self.script.cuts[self.next_cut] <= self.pos {
+            self.next_cut += 1;
+        }
+        if let Some(&c) = self.script.cuts.get(self.next_cut) {
+            end = end.min(c);
+        }
+        if self.script.piece > 0 {
+            let p = self.script.piece;
+            end = end.min((self.pos / p + 1) * p);
+        }
+        end
+    }
+    fn scripted_fault(&mut self) -> Option<Fault> {
+        let idx = self.calls;
+        self.calls += 1;
+        if let Some(&(i, f)) = self.script.faults.get(self.next_fault) {
+            if i == idx {
+                self.next_fault += 1;
+                self.faults_fired += 1;
+                return Some(f);
+            }
+        }
+        None
+    }
+    fn answer(&mut self) -> &'a [u8] {
+        self.data_calls += 1;
+        let end = self.piece_end();
+        self.last_offered = end - self.pos;
+        &self.data[self.pos..end]
+    }
+    fn do_consume(&mut self, amt: usize) {
+        if amt > self.data.len() - self.pos {
+            self.misuse = Some(format!("consume({}) with only {} bytes left", amt, self.data.len() - self.pos));
+            self.pos = self.data.len();
+        } else {
+            self.pos += amt;
+        }
+    }
+    pub fn remaining(&self) -> usize {
+        self.data.len() - self.pos
+    }
+}
+
+fn io_err(kind: io::ErrorKind) -> io::Error {
+    io::Error::new(kind, "scripted fault")
+}
+
+impl<'a> io::Read for Source<'a> {
+    fn read(&mut self, buf: &mut [u8]) -> io::Result<usize> {
+        let avail = self.fill_buf()?;
+        let n = avail.len().min(buf.len());
+        buf[..n].copy_from_slice(&avail[..n]);
+        self.consume(n);
+        Ok(n)
+    }
+}
+
+impl<'a> BufRead for Source<'a> {
+    fn fill_buf(&mut self) -> io::Result<&[u8]> {
+        match self.scripted_fault() {
+            Some(Fault::Interrupted) => Err(io_err(io::ErrorKind::Interrupted)),
+            Some(Fault::Hard(k)) => Err(io_err(k)),
+            Some(Fault::Pending) | None => Ok(self.answer()),
+        }
+    }
+    fn consume(&mut self, amt: usize) {
+        self.do_consume(amt)
+    }
+}
+
+impl<'a> AsyncRead for Source<'a> {
+    fn poll_read(self: Pin<&mut Self>, cx: &mut Context<'_>, buf: &mut ReadBuf<'_>) -> Poll<io::Result<()>> {
+        let this = self.get_mut();
+        match Pin::new(&mut *this).poll_fill_buf(cx) {
+            Poll::Pending => Poll::Pending,
+            Poll::Ready(Err(e)) => Poll::Ready(Err(e)),
+            Poll::Ready(Ok(avail)) => {
+                let n = avail.len().min(buf.remaining());
+                buf.put_slice(&avail[..n]);
+                this.do_consume(n);
+                Poll::Ready(Ok(()))
+            }
+        }
+    }
+}
+
+impl<'a> AsyncBufRead for Source<'a> {
+    fn poll_fill_buf(self: Pin<&mut Self>, cx: &mut Context<'_>) -> Poll<io::Result<&[u8]>> {
+        let this = self.get_mut();
+        match this.scripted_fault() {
+            Some(Fault::Pending) => {
+                cx.waker().wake_by_ref();
+                Poll::Pending
+            }
+            Some(Fault::Interrupted) => Poll::Ready(Err(io_err(io::ErrorKind::Interrupted))),
+            Some(Fault::Hard(k)) => Poll::Ready(Err(io_err(k))),
+            None => Poll::Ready(Ok(this.answer())),
+        }
+    }
+    fn consume(self: Pin<&mut Self>, amt: usize) {
+        self.get_mut().do_consume(amt)
+    }
+}
+
+/// Polls a future to completion by hand with a no-op waker. `max_polls` is the horizon: a future
+/// that is still pending after that many polls is reported as stuck (`None`).
+pub fn block_on<F: Future>(fut: F, max_polls: usize) -> Option<F::Output> {
+    let mut fut = std::pin::pin!(fut);
+    let waker = Waker::noop();
+    let mut cx = Context::from_waker(waker);
+    for _ in 0..max_polls {
+        if let Poll::Ready(v) = fut.as_mut().poll(&mut cx) {
+            return Some(v);
+        }
+    }
+    None
+}
+
+// ------------------------------------------------------------------------------------------------
+// Scripted AsyncWrite
+
+#[derive(Clone, Copy, PartialEq, Eq, Hash, Debug)]
+pub enum WAnswer {
+    All,
+    OneByte,
+    Pending,
+}
+
+/// In-memory `AsyncWrite` whose `poll_write` calls are answered by a script: call index -> answer
+/// (default: accept everything).
+pub struct ScriptedWrite {
+    pub out: Vec<u8>,
+    pub script: Vec<(usize, WAnswer)>,
+    pub calls: usize,
+    next: usize,
+}
+
+impl ScriptedWrite {
+    pub fn new(script: Vec<(usize, WAnswer)>) -> Self {
+        ScriptedWrite { out: Vec::new(), script, calls: 0, next: 0 }
+    }
+}
+
+impl AsyncWrite for ScriptedWrite {
+    fn poll_write(self: Pin<&mut Self>, cx: &mut Context<'_>, buf: &[u8]) -> Poll<io::Result<usize>> {
+        let this = self.get_mut();
+        let idx = this.calls;
+        this.calls += 1;
+        let mut ans = WAnswer::All;
+        if let Some(&(i, a)) = this.script.get(this.next) {
+            if i == idx {
+                this.next += 1;
+                ans = a;
+            }
+        }
+        match ans {
+            WAnswer::All => {
+                this.out.extend_from_slice(buf);
+                Poll::Ready(Ok(buf.len()))
+            }
+            WAnswer::OneByte => {
+                let n = buf.len().min(1);
+                this.out.extend_from_slice(&buf[..n]);
+                Poll::Ready(Ok(n))
+            }
+            WAnswer::Pending => {
+                cx.waker().wake_by_ref();
+                Poll::Pending
+            }
+        }
+    }
+    fn poll_flush(self: Pin<&mut Self>, _cx: &mut Context<'_>) -> Poll<io::Result<()>> {
+        Poll::Ready(Ok(()))
+    }
+    fn poll_shutdown(self: Pin<&mut Self>, _cx: &mut Context<'_>) -> Poll<io::Result<()>> {
+        Poll::Ready(Ok(()))
+    }
+}
